@@ -77,7 +77,7 @@ def generate(rng, tier):
 
 
 def execute(sc, ctx):
-    m = Model()
+    m = Model(seed=20260927)
     ref = RefWorld(sc["world"])
     env = make_world(m, sc["world"])
     n = int(sc["n"])
